@@ -61,6 +61,10 @@ class Indenter(PostLex, ABC):
                 raise DedentError('Unexpected dedent to column %s. Expected dedent to %s' % (indent, self.indent_level[-1]))
 
     def _process(self, stream):
+        # The state is reset when the stream starts to be consumed, not when process() is called:
+        # a stream that was created before an earlier one was consumed mustn't inherit its state
+        self.paren_level = 0
+        self.indent_level = [0]
         token = None
         for token in stream:
             if token.type == self.NL_type:
@@ -81,8 +85,6 @@ class Indenter(PostLex, ABC):
         assert self.indent_level == [0], self.indent_level
 
     def process(self, stream):
-        self.paren_level = 0
-        self.indent_level = [0]
         return self._process(stream)
 
     # XXX Hack for ContextualLexer. Maybe there's a more elegant solution?
